@@ -534,9 +534,112 @@ def _strip_local_annotations(tree):
     return T().visit(tree)
 
 
+def _const_value(e):
+    try:
+        return ast.literal_eval(e)
+    except Exception:
+        return _const_value        # sentinel: not a constant
+
+
+def _unroll_constant_tables(tree):
+    """`for a, b in TABLE: BODY` with TABLE a module-level tuple / list literal of constants (assigned once, at most 16 rows) is
+    unrolled: BODY with the row's constants substituted, once per row.  `setattr(o, "name", v)` / `getattr(o, "name")` with a constant
+    identifier become `o.name = v` / `o.name`.  Table-driven and spelled-out code then read the same."""
+    import copy as _copy
+    import keyword
+    tables = {}
+    counts: Dict[str, int] = {}
+    for st in tree.body:
+        for t in (st.targets if isinstance(st, ast.Assign) else [st.target] if isinstance(st, (ast.AnnAssign, ast.AugAssign)) else []):
+            if isinstance(t, ast.Name):
+                counts[t.id] = counts.get(t.id, 0) + 1
+                if isinstance(st, (ast.Assign, ast.AnnAssign)) and st.value is not None and isinstance(st.value, (ast.Tuple, ast.List)):
+                    v = _const_value(st.value)
+                    if v is not _const_value and 0 < len(v) <= 16:
+                        tables[t.id] = st.value
+    tables = {k: v for k, v in tables.items() if counts.get(k) == 1}
+
+    def plain_attr(name):
+        return isinstance(name, str) and name.isidentifier() and not keyword.iskeyword(name) and not (name.startswith("__") and not name.endswith("__"))
+
+    class Attr(ast.NodeTransformer):
+        def visit_Expr(self, node):
+            self.generic_visit(node)
+            c = node.value
+            if isinstance(c, ast.Call) and isinstance(c.func, ast.Name) and c.func.id == "setattr" and len(c.args) == 3 and not c.keywords \
+                    and isinstance(c.args[1], ast.Constant) and plain_attr(c.args[1].value):
+                return ast.copy_location(ast.Assign(targets=[ast.Attribute(value=c.args[0], attr=c.args[1].value, ctx=ast.Store())], value=c.args[2]), node)
+            return node
+
+        def visit_Call(self, node):
+            self.generic_visit(node)
+            if isinstance(node.func, ast.Name) and node.func.id == "getattr" and len(node.args) == 2 and not node.keywords \
+                    and isinstance(node.args[1], ast.Constant) and plain_attr(node.args[1].value):
+                return ast.copy_location(ast.Attribute(value=node.args[0], attr=node.args[1].value, ctx=ast.Load()), node)
+            return node
+
+    class Sub(ast.NodeTransformer):
+        def __init__(self, mapping):
+            self.mapping = mapping
+
+        def visit_Name(self, node):
+            if node.id in self.mapping and isinstance(node.ctx, ast.Load):
+                return ast.copy_location(_copy.deepcopy(self.mapping[node.id]), node)
+            return node
+
+    def local_stores(fn):
+        return {n.id for n in ast.walk(fn) if isinstance(n, ast.Name) and isinstance(n.ctx, ast.Store)} | {a.arg for a in ast.walk(fn) if isinstance(a, ast.arg)}
+
+    def unroll_block(stmts, shadow, fn=None):
+        out = []
+        for st in stmts:
+            for fld in ("body", "orelse", "finalbody"):
+                b = getattr(st, fld, None)
+                if isinstance(b, list) and b and isinstance(b[0], ast.stmt) and not isinstance(st, (ast.FunctionDef, ast.AsyncFunctionDef, ast.ClassDef)):
+                    setattr(st, fld, unroll_block(b, shadow, fn))
+            for h in getattr(st, "handlers", []) or []:
+                h.body = unroll_block(h.body, shadow, fn)
+            if isinstance(st, ast.For) and not st.orelse and isinstance(st.iter, ast.Name) and st.iter.id in tables and st.iter.id not in shadow:
+                tnames = [st.target.id] if isinstance(st.target, ast.Name) else \
+                    ([e.id for e in st.target.elts] if isinstance(st.target, (ast.Tuple, ast.List)) and all(isinstance(e, ast.Name) for e in st.target.elts) else None)
+                rows = tables[st.iter.id].elts
+                inner = [n for b in st.body for n in ast.walk(b)]
+                simple = tnames is not None and not any(isinstance(n, (ast.Break, ast.Continue, ast.FunctionDef, ast.Lambda, ast.ClassDef, ast.Yield, ast.YieldFrom)) for n in inner) \
+                    and not any(isinstance(n, ast.Name) and n.id in tnames and isinstance(n.ctx, (ast.Store, ast.Del)) for n in inner)
+                if simple and fn is not None:
+                    inside = {id(n) for n in ast.walk(st)}
+                    simple = not any(isinstance(n, ast.Name) and n.id in tnames and id(n) not in inside for n in ast.walk(fn))
+                if simple:
+                    ok_rows = all(isinstance(st.target, ast.Name) or (isinstance(r, (ast.Tuple, ast.List)) and len(r.elts) == len(tnames)) for r in rows)
+                    # the loop variables must not be read after the loop (they would keep the last row's values)
+                    if ok_rows:
+                        new = []
+                        for r in rows:
+                            mapping = {tnames[0]: r} if isinstance(st.target, ast.Name) else dict(zip(tnames, r.elts))
+                            for b in st.body:
+                                nb = Sub(mapping).visit(_copy.deepcopy(b))
+                                new.append(ast.copy_location(nb, st))
+                        for nb in new:
+                            for x in ast.walk(nb):
+                                if hasattr(x, "lineno"):
+                                    x.lineno, x.col_offset = st.lineno, st.col_offset
+                                    x.end_lineno, x.end_col_offset = getattr(st, "end_lineno", st.lineno), getattr(st, "end_col_offset", st.col_offset)
+                        out.extend(new)
+                        continue
+            out.append(st)
+        return out
+
+    if tables:
+        for fn in [n for n in ast.walk(tree) if isinstance(n, (ast.FunctionDef, ast.AsyncFunctionDef))]:
+            loc = local_stores(fn)
+            fn.body = unroll_block(fn.body, {t for t in tables if t in loc}, fn)
+    return Attr().visit(tree)
+
+
 def normal_form(tree):
     """the load-time normal form of a module (see DESIGN 2.1b)"""
     tree = _strip_local_annotations(tree)
+    tree = _unroll_constant_tables(tree)
     tree = ast.fix_missing_locations(_split_tuple_assigns(_ExprCanon().visit(tree)))
     tree = _forelse_to_flag(tree)
     return _inline_return_temps(_flatten_terminating_ifs(_LoadNormaliser().visit(tree)))
@@ -719,6 +822,25 @@ def effective_conditions(node) -> List[Tuple[str, bool]]:
         if isinstance(par, (ast.FunctionDef, ast.AsyncFunctionDef, ast.Lambda, ast.ClassDef, ast.Module)):
             break
         child = par
+    return out
+
+
+def cond_atoms(conds) -> List[Tuple[str, bool]]:
+    """split (test text, polarity) conditions into atoms: a true conjunction gives its conjuncts, a false disjunction its disjuncts
+    (negated), `not x` flips"""
+    out: List[Tuple[str, bool]] = []
+
+    def put(e, pol):
+        if isinstance(e, ast.UnaryOp) and isinstance(e.op, ast.Not):
+            put(e.operand, not pol)
+        elif isinstance(e, ast.BoolOp) and ((isinstance(e.op, ast.And) and pol) or (isinstance(e.op, ast.Or) and not pol)):
+            for v in e.values:
+                put(v, pol)
+        else:
+            t, fl = _positive(e)
+            out.append((ast.unparse(t), pol != fl))
+    for text, pol in conds:
+        put(ast.parse(text, mode="eval").body, pol)
     return out
 
 
